@@ -129,6 +129,13 @@ func (v *VMap) validate(prefix string, tv reflect.Value) *VMap {
 			fn(v.errBuf, validName, "", v.getKey(prefix, key), val)
 		}
 	}
+
+	// 规则里必填的 key 在 map 里不存在
+	v.vc.requiredNoExistKeys(v.errBuf, v.ruleObj, func(key string) bool {
+		return tv.MapIndex(reflect.ValueOf(key).Convert(tv.Type().Key())).IsValid()
+	}, func(key string) string {
+		return v.getKey(prefix, key)
+	})
 	return v
 }
 
